@@ -49,6 +49,12 @@ Proof.
     destruct maxl as [m|]; auto. destruct (m <? S level); auto. constructor; auto.
 Qed.
 
+Lemma gs_get_ok : forall s k g l, gs_ok s g -> gs_get k g = Some l -> pop_ok s l.
+Proof.
+  induction g as [|[k' l'] g IH]; simpl; intros l Hg H. discriminate. inv Hg.
+  destruct (k' =? k). inv H; auto. auto.
+Qed.
+
 Section Comp.
   Variable R : Type.
   Variable G : rng R.
@@ -66,63 +72,79 @@ Section Comp.
     destruct (f a) eqn:E; [|discriminate]. eapply IHk; [exact Hf| |exact H]. eapply Hf; eauto.
   Qed.
 
-  Theorem comp_closed : forall x, closed s (eval R G s x).
+  Theorem comp_closed : forall x, closedg s (eval R G s x).
   Proof.
-    induction x; intros pop st pop' st' Hp H; simpl in H.
-    - eapply PRIM; eauto.
+    induction x; intros pop st pop' st' Hp Hg H; simpl in H.
+    - (* Prim *) ok_step H. inv H. split; auto. eapply PRIM; eauto.
     - inv H; auto.
-    - ok_step H. eapply IHx2; [|eauto]. eapply IHx1; eauto.
-    - ok_step H. ok_step H. inv H. eapply pop_ok_incl. apply dedup_id_incl. apply pop_ok_app; [eapply IHx1|eapply IHx2]; eauto.
-    - ok_step H. ok_step H. inv H. apply pop_ok_filter. eapply IHx1; eauto.
-    - ok_step H. ok_step H. inv H. apply pop_ok_app; [eapply IHx1|eapply IHx2]; eauto.
-    - ok_step H. ok_step H. inv H. apply pop_ok_filter. eapply IHx1; eauto.
-    - ok_step H. ok_step H. inv H. apply pop_ok_filter. apply pop_ok_app; [eapply IHx1|eapply IHx2]; eauto.
+    - ok_step H. destruct (IHx1 _ _ _ _ Hp Hg E). eapply IHx2; eauto.
+    - ok_step H. ok_step H. inv H. destruct (IHx1 _ _ _ _ Hp Hg E) as [H1 G1]. destruct (IHx2 _ _ _ _ Hp G1 E0) as [H2 G2]. split; auto.
+      eapply pop_ok_incl. apply dedup_id_incl. apply pop_ok_app; auto.
+    - ok_step H. ok_step H. inv H. destruct (IHx2 _ _ _ _ Hp Hg E) as [H2 G2]. destruct (IHx1 _ _ _ _ Hp G2 E0) as [H1 G1]. split; auto. apply pop_ok_filter; auto.
+    - ok_step H. ok_step H. inv H. destruct (IHx1 _ _ _ _ Hp Hg E) as [H1 G1]. destruct (IHx2 _ _ _ _ Hp G1 E0) as [H2 G2]. split; auto. apply pop_ok_app; auto.
+    - ok_step H. ok_step H. inv H. destruct (IHx2 _ _ _ _ Hp Hg E) as [H2 G2]. destruct (IHx1 _ _ _ _ Hp G2 E0) as [H1 G1]. split; auto. apply pop_ok_filter; auto.
+    - ok_step H. ok_step H. inv H. destruct (IHx1 _ _ _ _ Hp Hg E) as [H1 G1]. destruct (IHx2 _ _ _ _ Hp G1 E0) as [H2 G2]. split; auto.
+      apply pop_ok_filter. apply pop_ok_app; auto.
     - (* Repeat *)
-      apply (iter_res_inv _ (fun acc : list item * est R => pop_ok s (fst acc))) in H; auto.
-      + intros [acc st0] y Ha Hy. simpl in *. ok_step Hy. inv Hy. simpl. apply pop_ok_app; auto. eapply (IHx pop); eauto.
-      + constructor.
+      apply (iter_res_inv _ (fun acc : list item * gst R => pop_ok s (fst acc) /\ gs_ok s (snd (snd acc)))) in H; auto.
+      + intros [acc st0] y [Ha Hg0] Hy. simpl in *. ok_step Hy. inv Hy. simpl.
+        destruct (IHx pop st0 _ _ Hp Hg0 E) as [H1 G1]. split; auto. apply pop_ok_app; auto.
+      + split; auto. constructor.
     - (* Power *)
-      apply (iter_res_inv _ (fun acc : list item * est R => pop_ok s (fst acc))) in H; auto.
-      intros [acc st0] [y st1] Ha Hy. simpl in *. eapply IHx; eauto.
+      apply (iter_res_inv _ (fun acc : list item * gst R => pop_ok s (fst acc) /\ gs_ok s (snd (snd acc)))) in H; auto.
+      intros [acc st0] [y st1] [Ha Hg0] Hy. simpl in *. eapply IHx; eauto.
     - (* SliceI *)
       ok_step H. destruct (py_index i (length l)); [|discriminate].
-      assert (Hl : pop_ok s l) by (eapply IHx; eauto).
+      destruct (IHx _ _ _ _ Hp Hg E) as [Hl G1].
       destruct (nth_error l n) as [y|] eqn:En; [|discriminate].
       assert (Hy : item_okb s y = true). { unfold pop_ok in Hl. rewrite Forall_forall in Hl. apply Hl. eapply nth_error_In; eauto. }
-      destruct y; inv H. constructor; auto. apply item_ok_grp in Hy; auto.
-    - ok_step H. inv H. eapply pop_ok_incl. apply py_slice_incl. eapply IHx; eauto.
-    - ok_step H. inv H. apply pop_ok_filter; auto.
+      destruct y; inv H; split; auto. constructor; auto. apply item_ok_grp in Hy; auto.
+    - ok_step H. inv H. destruct (IHx _ _ _ _ Hp Hg E) as [Hl G1]. split; auto. eapply pop_ok_incl. apply py_slice_incl. auto.
+    - ok_step H. inv H. destruct (IHx _ _ _ _ Hp Hg E) as [Hl G1]. split; auto. apply pop_ok_filter; auto.
     - (* WithProb *)
-      destruct (real G (fst st)) as [z r1]. destruct (lt_prob z p). eapply IHx; eauto. inv H; auto.
+      unfold with_r, st_r in H. match type of H with context [real G ?t] => destruct (real G t) as [z r1] end. destruct (lt_prob z p).
+      + eapply (IHx pop (r1, snd (fst st), snd st)); eauto.
+      + inv H. split; auto.
     - (* Choice2 *)
-      destruct (real G (fst st)) as [z r1].
+      unfold with_r, st_r in H. match type of H with context [real G ?t] => destruct (real G t) as [z r1] end.
       match type of H with rbind ?e _ = _ => destruct e as [[[pop1 st1] n1]|] eqn:E1; simpl in H; [|discriminate] end.
-      assert (H1 : pop_ok s pop1).
-      { destruct (lt_prob z p). ok_step E1. inv E1. eapply IHx1; eauto. inv E1; auto. }
+      assert (H1 : pop_ok s pop1 /\ gs_ok s (snd st1)).
+      { destruct (lt_prob z p). ok_step E1. inv E1. eapply (IHx1 pop (r1, snd (fst st), snd st)); eauto. inv E1; split; auto. }
+      destruct H1 as [H1 G1].
       destruct (match limit with Some l => (n1 =? 1) && (l =? 1) | None => false end). inv H; auto.
-      destruct (real G (fst st1)) as [z2 r2]. destruct (lt_prob z2 q). eapply IHx2; eauto. inv H; auto.
+      match type of H with context [real G ?t] => destruct (real G t) as [z2 r2] end. destruct (lt_prob z2 q).
+      + eapply (IHx2 pop1 (r2, snd (fst st1), snd st1)); eauto.
+      + inv H. split; auto.
     - destruct (thr <? length pop); [eapply IHx1|eapply IHx2]; eauto.
     - (* Each *)
       ok_step H. inv H.
-      assert (HG : forall l i acc out, pop_ok s l -> pop_ok s (fst acc) ->
-                foldi (fun (_ : nat) y (acc : list item * est R) =>
+      assert (HG : forall l i acc out, pop_ok s l -> pop_ok s (fst acc) /\ gs_ok s (snd (snd acc)) ->
+                foldi (fun (_ : nat) y (acc : list item * gst R) =>
                    match y with
                    | Grp _ l => rbind (eval R G s x l (snd acc)) (fun o1 =>
-                                Ok (fst acc ++ [Grp (snd (snd o1)) (fst o1)], (fst (snd o1), S (snd (snd o1)))))
-                   | It _ => Err EType end) i l acc = Ok out -> pop_ok s (fst out)).
+                                Ok (fst acc ++ [Grp (st_n R (snd o1)) (fst o1)], ((st_r R (snd o1), S (st_n R (snd o1))), snd (snd o1))))
+                   | It _ => Err EType end) i l acc = Ok out -> pop_ok s (fst out) /\ gs_ok s (snd (snd out))).
       { induction l as [|y l IHl]; simpl; intros i acc out Hl Ha Ho. inv Ho; auto.
         inv Hl. destruct y as [|g gl]; [discriminate|].
-        destruct (eval R G s x gl (snd acc)) as [[o1 so1]|] eqn:Eo; simpl in Ho; [|discriminate].
-        eapply IHl; [auto| |eauto]. simpl. apply pop_ok_app; auto. constructor; [|constructor].
-        apply item_ok_grp. apply item_ok_grp in H1. eapply (IHx gl); eauto. }
-      eapply (HG pop 0 ([], st) (pop', st')); eauto. constructor.
+        match type of Ho with context [eval R G s x gl ?t] => destruct (eval R G s x gl t) as [[o1 so1]|] eqn:Eo end; simpl in Ho; [|discriminate].
+        destruct Ha as [Ha Hga]. apply item_ok_grp in H1. destruct (IHx gl _ _ _ H1 Hga Eo) as [Ho1 Gs1].
+        eapply IHl; [auto| |eauto]. simpl. split; auto. apply pop_ok_app; auto. constructor; [|constructor].
+        apply item_ok_grp. auto. }
+      eapply (HG pop 0 ([], st) (pop', st')); eauto. split; auto. constructor.
     - (* Flatten *)
-      inv H. induction Hp; simpl. constructor. apply pop_ok_app; auto.
+      inv H. split; auto. induction Hp; simpl. constructor. apply pop_ok_app; auto.
       destruct x; [constructor; auto|]. apply flat_item_ok; auto.
     - (* Until *)
-      revert st H. induction maxa as [|k IHk]; intros st H. discriminate.
-      ok_step H. destruct (negb (pop_eqb l pop)). inv H. eapply IHx; eauto.
-      destruct k. inv H. eapply IHx; eauto. eapply IHk; eauto.
-    - eapply IHx; eauto.
+      revert st Hg H. induction maxa as [|k IHk]; intros st Hg H. discriminate.
+      ok_step H. destruct (IHx _ _ _ _ Hp Hg E) as [Hl G1]. destruct (negb (pop_eqb l pop)). inv H. auto.
+      destruct k. inv H. auto. eapply IHk; eauto.
+    - (* Plain *)
+      ok_step H. inv H. destruct (IHx pop (fst st, []) _ _ Hp ltac:(constructor) E) as [Hl _]. split; auto.
+    - (* GGet *)
+      match type of H with context [gs_get k ?t] => destruct (gs_get k t) as [l|] eqn:Eg end.
+      + inv H. split; auto. eapply gs_get_ok; eauto.
+      + destruct dflt; [|discriminate]. inv H. split; auto. constructor.
+    - (* GSet *)
+      inv H. split. constructor. simpl. constructor; auto. simpl. destruct from_input; auto. constructor.
   Qed.
 End Comp.
